@@ -443,6 +443,10 @@ class Circuit:
                 ll.driver = node_map[l.driver]
                 ll.driver_pin = l.driver_pin
             ll.driver.outs[ll.driver_pin] = ll
+        for n in dangling:  # a fork that drove an unconnected output keeps no gap for it
+            if n.kind == '__fork__' and any(l is None for l in n.outs):
+                n.outs = GrowingList(l for l in n.outs if l is not None)
+                for i, l in enumerate(n.outs): l.driver_pin = i
         for n in dangling:  # only after all connected outputs are wired: remove logic that feeds unconnected outputs only
             self.remove_dangling_nodes(n)
 
